@@ -61,6 +61,9 @@ func init() {
 		"(*regexp.Regexp).Match":    regexpMatch,
 		"reflect.TypeOf":            reflectTypeOf,
 		"reflect.ValueOf":           reflectValueOf,
+		"reflect.DeepEqual":         reflectDeepEqual,
+		"(*crypto/rand.reader).Read": cryptoRandRead,
+		"(*encoding/base64.Encoding).EncodeToString": base64EncodeToString,
 		"(reflect.Value).Kind":      reflectKind,
 		"time.Now":                 timeNow,
 		"(time.Time).Add":          timeAdd,
@@ -510,4 +513,172 @@ func urlParse(fr *frame, a []Value) Value {
 	cell := new(Value)
 	*cell = u
 	return Tuple{cell, Iface{}}
+}
+
+// reflect.DeepEqual over interpreter values (the documented rules: pointers are
+// equal if identical or if their pointees are deeply equal, structs field by
+// field incl. unexported ones, slices both nil or both non-nil with equal length
+// and elements, funcs only if both nil, interfaces by dynamic type and value).
+func reflectDeepEqual(fr *frame, a []Value) Value {
+	x, y := a[0].(Iface), a[1].(Iface)
+	e := fr.th.eng
+	if x.t == nil || y.t == nil {
+		return e.pool.Bool(x.t == nil && y.t == nil)
+	}
+	if !types.Identical(x.t, y.t) {
+		return e.pool.False
+	}
+	return e.deepEqual(fr.th, x.v, y.v, map[[2]*Value]bool{}, 0)
+}
+
+func (e *Engine) deepEqual(th *Thread, x, y Value, seen map[[2]*Value]bool, depth int) *Term {
+	p := e.pool
+	if depth > 64 {
+		panic(inconclusive{"reflect.DeepEqual: nesting deeper than 64"})
+	}
+	switch x := x.(type) {
+	case nil:
+		return p.Bool(y == nil)
+	case *Term:
+		yt, ok := y.(*Term)
+		if !ok || yt.W != x.W {
+			return p.False
+		}
+		return p.Cmp(OpEq, x, yt)
+	case Str:
+		ys, ok := y.(Str)
+		if !ok {
+			return p.False
+		}
+		return e.strEq(x, ys)
+	case Float:
+		yf, ok := y.(Float)
+		return p.Bool(ok && x.f == yf.f)
+	case *Value:
+		yp, ok := y.(*Value)
+		if !ok {
+			return p.False
+		}
+		if x == nil || yp == nil {
+			return p.Bool(x == nil && yp == nil)
+		}
+		if x == yp || seen[[2]*Value{x, yp}] {
+			return p.True
+		}
+		seen[[2]*Value{x, yp}] = true
+		e.access(th, x, false)
+		e.access(th, yp, false)
+		return e.deepEqual(th, *x, *yp, seen, depth+1)
+	case Struct:
+		ys, ok := y.(Struct)
+		if !ok || len(ys) != len(x) {
+			return p.False
+		}
+		r := p.True
+		for i := range x {
+			r = p.BAnd(r, e.deepEqual(th, x[i], ys[i], seen, depth+1))
+		}
+		return r
+	case Array:
+		ya, ok := y.(Array)
+		if !ok || len(ya) != len(x) {
+			return p.False
+		}
+		r := p.True
+		for i := range x {
+			r = p.BAnd(r, e.deepEqual(th, x[i], ya[i], seen, depth+1))
+		}
+		return r
+	case Iface:
+		yi, ok := y.(Iface)
+		if !ok {
+			return p.False
+		}
+		if x.t == nil || yi.t == nil {
+			return p.Bool(x.t == nil && yi.t == nil)
+		}
+		if !types.Identical(x.t, yi.t) {
+			return p.False
+		}
+		return e.deepEqual(th, x.v, yi.v, seen, depth+1)
+	case Slice:
+		ys, ok := y.(Slice)
+		if !ok {
+			return p.False
+		}
+		if x.isNil() != ys.isNil() {
+			return p.False
+		}
+		if x.arr != nil || ys.arr != nil || !x.ln.IsConst() || !ys.ln.IsConst() || !x.off.IsConst() || !ys.off.IsConst() {
+			panic(inconclusive{"reflect.DeepEqual on a slice of symbolic extent"})
+		}
+		if x.ln.Val != ys.ln.Val {
+			return p.False
+		}
+		r := p.True
+		for i := uint64(0); i < x.ln.Val; i++ {
+			r = p.BAnd(r, e.deepEqual(th, x.data[x.off.Val+i], ys.data[ys.off.Val+i], seen, depth+1))
+		}
+		return r
+	case *Map:
+		ym, ok := y.(*Map)
+		if !ok {
+			return p.False
+		}
+		if x == nil || ym == nil {
+			return p.Bool(x == nil && ym == nil)
+		}
+		if x == ym {
+			return p.True
+		}
+		panic(inconclusive{"reflect.DeepEqual on two distinct maps"})
+	case *Chan:
+		yc, ok := y.(*Chan)
+		return p.Bool(ok && x == yc)
+	case *ssa.Function:
+		yf, ok := y.(*ssa.Function)
+		return p.Bool(ok && x == nil && yf == nil)
+	case *Closure:
+		yc, ok := y.(*Closure)
+		return p.Bool(ok && x == nil && yc == nil)
+	}
+	panic(inconclusive{fmt.Sprintf("reflect.DeepEqual on %T", x)})
+}
+
+// crypto/rand: every byte delivered is a fresh solver variable (the environment may return anything).
+func cryptoRandRead(fr *frame, a []Value) Value {
+	th := fr.th
+	e := th.eng
+	b := a[1].(Slice)
+	if b.arr != nil || !b.ln.IsConst() || !b.off.IsConst() {
+		panic(inconclusive{"crypto/rand.Read into a buffer of symbolic extent"})
+	}
+	for i := uint64(0); i < b.ln.Val; i++ {
+		e.nrand++
+		th.storeInto(&b.data[b.off.Val+i], e.path.NewVar(fmt.Sprintf("rand%d", e.nrand), 8))
+	}
+	return Tuple{e.pool.BV(b.ln.Val, 64), Iface{}}
+}
+
+// encoding/base64 (its tables are built by the package's init, which is not run): the result has the
+// right length; its characters are fresh solver variables from the URL-safe alphabet's byte range.
+func base64EncodeToString(fr *frame, a []Value) Value {
+	th := fr.th
+	e := th.eng
+	b := a[1].(Slice)
+	if !b.ln.IsConst() {
+		panic(inconclusive{"base64 of a buffer of symbolic length"})
+	}
+	n := int((b.ln.Val + 2) / 3 * 4)
+	out := Str{sym: make([]*Term, n)}
+	for i := range out.sym {
+		e.nrand++
+		c := e.path.NewVar(fmt.Sprintf("b64_%d", e.nrand), 8)
+		e.path.Assume(e.pool.BAnd(e.pool.Cmp(OpUle, e.pool.BV('-', 8), c), e.pool.Cmp(OpUle, c, e.pool.BV('z', 8))))
+		out.sym[i] = c
+	}
+	if n == 0 {
+		return Str{}
+	}
+	return out
 }
